@@ -26,27 +26,43 @@ ViewNoGm == <<circ, hist, ev>>
 
 NS == 3
 Syms == 1..NS
-LF(c, k) == [c |-> c, k |-> k]
+\* one NON-linear monomial: d * a*b (in the same units: the real parameter is d * a * b / (pi/2)) - binding one factor to zero
+\* annihilates the other symbol.  Maps that would leave the class (a or b bound to a non-number while d # 0) are not offered.
+LFd(c, k, d) == [c |-> c, k |-> k, d |-> d]
+LF(c, k) == LFd(c, k, 0)
 NumP(k) == LF(<<0, 0, 0>>, k)
 SymP(s) == LF([i \in Syms |-> IF i = s THEN 1 ELSE 0], 0)
-LAdd(p, q) == LF([i \in Syms |-> p.c[i] + q.c[i]], p.k + q.k)
-LScale(a, p) == LF([i \in Syms |-> a * p.c[i]], a * p.k)
-IsNumber(p) == \A i \in Syms : p.c[i] = 0
+LAdd(p, q) == LFd([i \in Syms |-> p.c[i] + q.c[i]], p.k + q.k, p.d + q.d)
+LScale(a, p) == LFd([i \in Syms |-> a * p.c[i]], a * p.k, a * p.d)
+IsNumber(p) == p.d = 0 /\ \A i \in Syms : p.c[i] = 0
 IsBare(p) == p.k = 0 /\ \E s \in Syms : p = SymP(s)
 BareOf(p) == CHOOSE s \in Syms : p = SymP(s)
-FreeSyms(p) == {i \in Syms : p.c[i] # 0}
+FreeSyms(p) == {i \in Syms : p.c[i] # 0} \cup (IF p.d # 0 THEN {1, 2} ELSE {})
+\* product of two forms inside the class: number * form, or the monomial a*b itself
+ProdLF(x, y) == IF IsNumber(x) THEN LScale(x.k, y) ELSE IF IsNumber(y) THEN LScale(y.k, x) ELSE LFd(<<0, 0, 0>>, 0, 1)
 
 \* ---- symbol maps: function from a subset of 1..4 to linear forms (4 = a symbol that occurs nowhere) -----------
 Dom(m) == DOMAIN m
-NonChained(m) == \A s \in Dom(m) : \A t \in Dom(m) \cap Syms : m[s].c[t] = 0
+NonChained0(m) == \A s \in Dom(m) : \A t \in Dom(m) \cap Syms : m[s].c[t] = 0
+\* the domain: no value mentions a key - or the map has ONE key among the circuit's symbols (theta -> theta + pi/2, theta -> 2 theta:
+\* the parameter-shift and rescaling maps), where "one key after the other" and "simultaneously" are the same thing
+NonChained(m) == NonChained0(m) \/ Cardinality(Dom(m) \cap Syms) <= 1
 \* meaning: simultaneous substitution
-Subst(p, m) == LET terms == [i \in Syms |-> IF i \in Dom(m) THEN LScale(p.c[i], m[i]) ELSE LScale(p.c[i], SymP(i))] IN
-               LAdd(LAdd(terms[1], terms[2]), LAdd(terms[3], NumP(p.k)))
+Img(m, i) == IF i \in Dom(m) THEN m[i] ELSE SymP(i)
+Subst(p, m) == LET terms == [i \in Syms |-> LScale(p.c[i], Img(m, i))] IN
+               LAdd(LAdd(LAdd(terms[1], terms[2]), LAdd(terms[3], NumP(p.k))), IF p.d = 0 THEN NumP(0) ELSE LScale(p.d, ProdLF(Img(m, 1), Img(m, 2))))
+\* the map keeps the parameter inside the class
+\* (written with IF: inside an action TLC explores BOTH sides of a disjunction)
+InClass(p, m) == IF p.d = 0 THEN TRUE ELSE (IF 1 \in Dom(m) THEN IsNumber(m[1]) ELSE TRUE) /\ (IF 2 \in Dom(m) THEN IsNumber(m[2]) ELSE TRUE)
 \* mechanism: sub_symbols (dispatch) with sympy's dictionary substitution (keys one after the other, in key order)
 RECURSIVE SeqSubs(_, _, _)
 SeqSubs(p, m, keys) == IF keys = <<>> THEN p
                        ELSE LET s == Head(keys)
-                                q == IF s \in Syms THEN LAdd(LF([i \in Syms |-> IF i = s THEN 0 ELSE p.c[i]], p.k), LScale(p.c[s], m[s])) ELSE p
+                                \* the linear occurrence of s, and its occurrence in the monomial (s = 1: d*m[1]*b, s = 2: d*a*m[2]; m[s] a number there)
+                                lin == IF s \in Syms THEN LAdd(LFd([i \in Syms |-> IF i = s THEN 0 ELSE p.c[i]], p.k, p.d), LScale(p.c[s], m[s])) ELSE p
+                                q == IF s \in {1, 2} /\ lin.d # 0
+                                     THEN LAdd(LFd(lin.c, lin.k, 0), LScale(lin.d * m[s].k, SymP(3 - s)))
+                                     ELSE lin
                             IN SeqSubs(q, m, Tail(keys))
 KeySeq(m) == LET RECURSIVE L(_) L(S) == IF S = {} THEN <<>> ELSE LET x == CHOOSE y \in S : \A z \in S : y <= z IN <<x>> \o L(S \ {x}) IN L(Dom(m))
 SubSymbols(p, m) == IF IsNumber(p) THEN p
@@ -54,7 +70,7 @@ SubSymbols(p, m) == IF IsNumber(p) THEN p
                     ELSE SeqSubs(p, m, KeySeq(m))
 \* assignments and evaluation
 Assignments == { <<1, 2, 3>>, <<3, 1, 6>>, <<0, 5, 2>> }
-EvalP(p, sg) == p.c[1] * sg[1] + p.c[2] * sg[2] + p.c[3] * sg[3] + p.k
+EvalP(p, sg) == p.c[1] * sg[1] + p.c[2] * sg[2] + p.c[3] * sg[3] + p.k + p.d * sg[1] * sg[2]
 Compose(sg, m) == [i \in Syms |-> IF i \in Dom(m) THEN EvalP(m[i], sg) ELSE sg[i]]     \* sigma o m
 
 \* ---- operations --------------------------------------------------------------------------------------------------
@@ -69,7 +85,9 @@ OpSeq == << Op("builtin", "RX", <<A>>, <<0>>), Op("builtin", "RZ", <<LAdd(LScale
             Op("phase", "", <<A, NumP(1), LAdd(B, A), NumP(0)>>, <<0, 1>>), Op("builtin", "RX", <<LAdd(A, LScale(-1, A))>>, <<0>>),
             Op("pow", "RX", <<NumP(1)>>, <<0>>), Op("exp", "RZ", <<NumP(3)>>, <<1>>), Op("builtin", "CPHASE", <<LScale(-1, B)>>, <<1, 0>>),
             \* the same wrapper and the SAME parameters as operation 4 around another gate; a plain gate with the parameters of operation 1
-            Op("ctrl", "RX", <<LAdd(B, LScale(-1, Cc))>>, <<0, 1>>), Op("builtin", "RY", <<A>>, <<1>>) >>
+            Op("ctrl", "RX", <<LAdd(B, LScale(-1, Cc))>>, <<0, 1>>), Op("builtin", "RY", <<A>>, <<1>>),
+            \* parameters with the monomial a*b: alone, and next to other symbols
+            Op("builtin", "RX", <<LFd(<<0, 0, 0>>, 0, 1)>>, <<0>>), Op("builtin", "U3", <<LFd(<<0, 0, 1>>, 1, 2), B, NumP(1)>>, <<1>>) >>
 Kth(ks) == <<ks[1] % 8, IF Len(ks) >= 2 THEN ks[2] % 8 ELSE 0, IF Len(ks) >= 3 THEN ks[3] % 8 ELSE 0>>
 \* the custom gate V(a, b): stored matrix RZ(a) * RX(b) in its FORMAL parameters a, b (the formals carry the names of circuit symbols 1 and 2)
 CustomDef(ka, kb) == MMul(gm[<<"RZ", ka % 8>>], gm[<<"RX", kb % 8>>])
@@ -94,7 +112,9 @@ GMTab == [key \in GMKeys |-> GateAt(key[1], <<key[2], 0, 0>>)]
 \* ---- maps offered ----------------------------------------------------------------------------------------------------
 MapSeq == << (1 :> NumP(1)), (2 :> NumP(3)), (1 :> NumP(2)) @@ (2 :> NumP(1)) @@ (3 :> NumP(5)), (3 :> NumP(1)) @@ (4 :> NumP(2)),
              (1 :> Cc), (1 :> LAdd(LScale(2, Cc), NumP(1))) @@ (2 :> NumP(0)), (4 :> NumP(1)), (2 :> LAdd(Cc, NumP(-1))),
-             (1 :> B) @@ (2 :> A) >>                                \* the last one is CHAINED (a swap): outside the domain, kept to show why
+             (1 :> B) @@ (2 :> A),                                  \* this one is CHAINED (a swap): outside the domain, kept to show why
+             (1 :> LAdd(A, NumP(1))), (1 :> LScale(2, A)), (2 :> LAdd(LScale(-1, B), Cc)) @@ (4 :> NumP(1)),   \* one key, mentioned by its own value
+             (2 :> NumP(0)), (1 :> NumP(0)) @@ (3 :> NumP(1)) >>                           \* a factor of the monomial bound to zero
 Maps == {MapSeq[i] : i \in MapSel}
 BindOps(c, m) == [i \in 1..Len(c) |-> [c[i] EXCEPT !.ps = [j \in 1..Len(c[i].ps) |-> SubSymbols(c[i].ps[j], m)]]]
 Refuses(o) == o.kind \in {"pow", "exp"}
@@ -102,6 +122,7 @@ Init == gm = GMTab /\ circ = <<>> /\ hist = <<>> /\ ev = [op |-> "new", m |-> <<
 AppendOp(i) == /\ hist = <<>> /\ Len(circ) < MaxOps /\ circ' = Append(circ, OpSeq[i]) /\ hist' = hist
                /\ ev' = [op |-> "append", m |-> << >>, out |-> "ok"] /\ UNCHANGED gm
 BindStep(m) == /\ Len(hist) < MaxBinds /\ circ # <<>> /\ UNCHANGED gm
+               /\ \A i \in 1..Len(circ) : \A j \in 1..Len(circ[i].ps) : InClass(circ[i].ps[j], m)
                /\ IF \E i \in 1..Len(circ) : Refuses(circ[i])
                   THEN circ' = circ /\ hist' = hist /\ ev' = [op |-> "bind", m |-> m, out |-> "not-implemented"]
                   ELSE circ' = BindOps(circ, m) /\ hist' = Append(hist, [m |-> m, pre |-> circ]) /\ ev' = [op |-> "bind", m |-> m, out |-> "ok"]
@@ -138,7 +159,7 @@ NoFreeIffAllNumeric == (CircFree(circ, {}) = <<>>) <=> (\A p \in AllParams(circ)
 PowerExpRefuse == (ev.op = "bind" /\ \E i \in 1..Len(circ) : Refuses(circ[i])) => ev.out = "not-implemented"
 NoOverflow == TRUE
 
-LFJ(p) == [c |-> p.c, k |-> p.k]
+LFJ(p) == [c |-> p.c, k |-> p.k, d |-> p.d]
 OpJ(o) == [kind |-> o.kind, name |-> o.name, ps |-> [j \in 1..Len(o.ps) |-> LFJ(o.ps[j])], qs |-> o.qs]
 CircJ(c) == [i \in 1..Len(c) |-> OpJ(c[i])]
 MapJ(m) == LET RECURSIVE L(_) L(S) == IF S = {} THEN <<>> ELSE LET x == CHOOSE y \in S : \A z \in S : y <= z IN <<[s |-> x, v |-> LFJ(m[x])]>> \o L(S \ {x}) IN L(Dom(m))
